@@ -22,7 +22,7 @@ ASSUMPTIONS = ['CachedMethods compatibility shim', 'implicit hydrogen counts and
                '(their correctness is C04 / C06)', 'metalloids (B Si Ge As Sb Te Po At) are not judged for the any-metal primitive',
                'coordinate bonds are not judged for negated bond orders']
 CONFIG = {
-    'quick': {'shards': 16, 'budget_s': 150, 'n_mols': 900, 'n_gen': 15000,
+    'quick': {'shards': 16, 'budget_s': 300, 'n_mols': 900, 'n_gen': 15000,
               'floors': {'evaluations': 40000, 'distinct_nontrivial': 8000, 'atom-queries': 30000, 'bond-queries': 3000,
                          'language.valid': 4000, 'language.invalid': 1500, 'stereo.queries': 40, 'primitives.kinds': 15}},
     'thorough': {'shards': 16, 'budget_s': 1800, 'n_mols': 4200, 'n_gen': 600000,
